@@ -231,6 +231,7 @@ func runC15(c *ctxT) {
 	c15Config(c, rng, 6000*scale)
 	c15Records(c, rng, 1500*scale)
 	c15Helpers(c, rng, 20000*scale)
+	c15StoredPodENI(c, rng, 40*scale)
 	if c.Batch == 0 {
 		runInpkg(c, "pluginterway.test", "TestVerifC15Plugin", false)
 	}
@@ -693,5 +694,92 @@ func c15Helpers(c *ctxT, rng *rand.Rand, n int) {
 			}
 			_ = daemon.VerifDefaultForNetConf(ncs)
 		})
+	}
+}
+
+// ---------- stored PodENI records ----------
+// c15StoredPodENI: a per-pod ENI record is a CR anybody with access can edit (kubectl annotate/edit, a backup restored
+// without annotations, a hand-made CR). The real pod and PodENI controllers and their collectors are driven over
+// records damaged in one place, at each phase a record rests in; a panic inside a reconcile is the violation.
+func c15StoredPodENI(c *ctxT, rng *rand.Rand, n int) {
+	damages := []string{"no-annotations", "garbage-uid", "no-allocations", "empty-eni-id", "no-eni-infos", "garbage-phase", "no-zone", "garbage-ip", "nil-eni-info-entry", "no-finalizer"}
+	for i := 0; i < n; i++ {
+		hid := 990000 + c.Batch*1000 + i
+		h := newPeHist(c, "C15", hid, peCfg{Trunk: rng.Intn(2) == 0, Names: 1}, int64(hid)+c.R.Seed)
+		sp := h.mon.spec["p0"]
+		sp.Fixed, sp.Owner, sp.NIfs = []string{"never", "ttl-long", "ttl-zero", ""}[rng.Intn(4)], "StatefulSet", 1+rng.Intn(2)
+		dmg := damages[rng.Intn(len(damages))]
+		rest := []string{"bound", "unbound", "initial"}[rng.Intn(3)]
+		h.createPod("p0")
+		h.deliverPod("p0")
+		if rest != "initial" {
+			h.deliverENI("p0")
+			h.deliverPod("p0")
+		}
+		if rest == "unbound" {
+			h.mon.mu.Lock()
+			p := h.mon.cur["p0"]
+			h.mon.mu.Unlock()
+			h.remove(p)
+			for k := 0; k < 2; k++ {
+				h.deliverPod("p0")
+				h.deliverENI("p0")
+			}
+		}
+		rec := &v1beta1.PodENI{}
+		if err := h.cl.Get(context.Background(), client.ObjectKey{Namespace: "ns", Name: "p0"}, rec); err == nil {
+			status := false
+			switch dmg {
+			case "no-annotations":
+				rec.Annotations = nil
+			case "garbage-uid":
+				rec.Annotations = map[string]string{types.PodUID: fuzzString(rng)}
+			case "no-allocations":
+				rec.Spec.Allocations = nil
+			case "empty-eni-id":
+				if len(rec.Spec.Allocations) > 0 {
+					rec.Spec.Allocations[0].ENI.ID = ""
+				}
+			case "no-zone":
+				rec.Spec.Zone = ""
+			case "garbage-ip":
+				if len(rec.Spec.Allocations) > 0 {
+					rec.Spec.Allocations[0].IPv4, rec.Spec.Allocations[0].IPv4CIDR = fuzzString(rng), fuzzString(rng)
+				}
+			case "no-finalizer":
+				rec.Finalizers = nil
+			case "no-eni-infos":
+				rec.Status.ENIInfos, status = nil, true
+			case "garbage-phase":
+				rec.Status.Phase, status = v1beta1.Phase(fuzzString(rng)), true
+			case "nil-eni-info-entry":
+				rec.Status.ENIInfos, status = map[string]v1beta1.ENIInfo{"": {}}, true
+			}
+			if status {
+				_ = h.cl.Status().Update(context.Background(), rec)
+			} else {
+				_ = h.cl.Update(context.Background(), rec)
+			}
+		}
+		if rest == "unbound" || rng.Intn(3) == 0 {
+			h.mon.mu.Lock()
+			p := h.mon.cur["p0"]
+			h.mon.mu.Unlock()
+			if p != nil && p.Exists {
+				h.remove(p)
+			}
+			h.createPod("p0") // the pod comes back under a new UID and meets the damaged record
+		}
+		for k := 0; k < 3; k++ {
+			h.deliverPod("p0")
+			h.deliverENI("p0")
+		}
+		h.gcRecords()
+		h.age()
+		h.gcInterfaces()
+		h.deliverENI("p0")
+		c.R.Eval(1)
+		c.R.Count("stored_podeni_cases", 1)
+		c.R.DistinctKey(fmt.Sprintf("podeni-record/%s/%s/fixed=%s", dmg, rest, sp.Fixed))
 	}
 }
